@@ -123,6 +123,22 @@ def vtok(v):
     return enc_val(v).replace(" ", ",")
 
 
+def canon_tok(v):
+    """value up to the order of list items and of dict keys (for comparisons modulo permutation)"""
+    if isinstance(v, dict):
+        return "D{" + ",".join(sorted(enc_str(k) + "=" + canon_tok(x) for k, x in v.items())) + "}"
+    if isinstance(v, list):
+        return "L[" + ",".join(sorted(canon_tok(x) for x in v)) + "]"
+    return vtok(v)
+
+
+def with_place(case):
+    """the same case with the place flag switched on at the end of the history (paths are needed)"""
+    c = dict(case)
+    c["setters"] = list(case.get("setters", [])) + [["place", True]]
+    return c
+
+
 # ---------------------------------------------------------------------------
 # running the implementation
 # ---------------------------------------------------------------------------
@@ -798,3 +814,90 @@ def generic_replay(rp, evaluators):
         return 1 if (io_ if io_ is not None else rp.get("impl")) != mo else 0
     print("nothing to replay")
     return 0
+
+
+# ---------------------------------------------------------------------------
+# declarative oracle of the report (used by C08/C09): which entries a comparison must produce
+# on recursively converted trees, without options, when no two non-record items of a list share
+# their str() with different values
+# ---------------------------------------------------------------------------
+def spec_key(item, fields):
+    if isinstance(item, dict):
+        if not fields:
+            return ("rec", "")
+        return ("rec", ";".join("%s=%s" % (f, str(item[f])) for f in fields if f in item))
+    return ("val", str(item))
+
+
+def spec_entries(x, y, path, fields, direct, out):
+    """appends ('ne', path, ltok, rtok) / ('su'|'ou', path, tok) for the pair of containers x, y"""
+    if isinstance(x, dict):
+        for k in x:
+            if k in y:
+                spec_pair(x[k], y[k], path + "/" + k, fields, direct, out)
+            else:
+                out.append(("su", path + "/" + k, vtok(x[k])))
+        for k in y:
+            if k not in x:
+                out.append(("ou", path + "/" + k, vtok(y[k])))
+        return
+    if direct:
+        for i in range(max(len(x), len(y))):
+            p = "%s[%d]" % (path, i)
+            if i >= len(y):
+                out.append(("su", p, vtok(x[i])))
+            elif i >= len(x):
+                out.append(("ou", p, vtok(y[i])))
+            else:
+                spec_pair(x[i], y[i], p, fields, direct, out)
+        return
+    # keyed: the n-th item with key K on the left is paired with the n-th item with key K on the right
+    occ_y = {}
+    for j, it in enumerate(y):
+        occ_y.setdefault(spec_key(it, fields), []).append(j)
+    seen = {}
+    used = set()
+    for i, it in enumerate(x):
+        k = spec_key(it, fields)
+        n = seen.get(k, 0)
+        seen[k] = n + 1
+        js = occ_y.get(k, [])
+        if n < len(js):
+            j = js[n]
+            used.add(j)
+            p = "%s[%d]" % (path, i) if i == j else "%s[%d]<>[%d]" % (path, i, j)
+            spec_pair(it, y[j], p, fields, direct, out)
+        else:
+            out.append(("su", "%s[%d]" % (path, i), vtok(it)))
+    for j, it in enumerate(y):
+        if j not in used:
+            out.append(("ou", "%s[%d]" % (path, j), vtok(it)))
+
+
+def spec_pair(u, v, p, fields, direct, out):
+    if isinstance(u, dict) and isinstance(v, dict) or isinstance(u, list) and isinstance(v, list):
+        spec_entries(u, v, p, fields, direct, out)
+    elif not (type(u) is type(v) and u == v):
+        out.append(("ne", p, vtok(u), vtok(v)))
+
+
+def spec_report(case):
+    out = []
+    fields = case.get("ck", [])
+    fields = [fields] if isinstance(fields, str) else list(fields)
+    spec_entries(build(case["a"]), build(case["b"]), "", fields, case["mode"] == "d", out)
+    return sorted(out)
+
+
+def report_of(run):
+    """the implementation's entries in the oracle's form (type clashes are not-equal pairs; a clash inside a
+    keyed list is reported at prefix[i] and is compared without the right index)"""
+    out = []
+    for e in entries_of(run):
+        if e[0] == "ne":
+            out.append(("ne", e[1], vtok(e[4]), vtok(e[5])))
+        elif e[0] == "dt":
+            out.append(("ne", e[1], vtok(e[2]), vtok(e[3])))
+        elif e[0] in ("su", "ou"):
+            out.append((e[0], e[1], vtok(e[2])))
+    return sorted(out)
